@@ -49,7 +49,7 @@ NoIdt == [name |-> "none", sub |-> "none", aud |-> <<>>, azp |-> "none", nonce |
 NoOut == [class |-> "none", status |-> 0, err |-> "none", doc |-> FALSE, req |-> "none", target |-> "none",
           channel |-> "none", state |-> "none", code |-> "none", at |-> NoTok, rt |-> NoRt, idt |-> NoIdt,
           scope |-> <<>>, sub |-> "none", rotated |-> "none", bare |-> TRUE, dc |-> "none", uc |-> "none",
-          journal |-> <<>>, issuedType |-> "", actor |-> "none", auth |-> "none", expiresOff |-> 0, faulted |-> FALSE]
+          journal |-> <<>>, issuedType |-> "", actor |-> "none", auth |-> "none", expiresOff |-> 0, faulted |-> FALSE, ucBound |-> TRUE]
 
 Init0 ==
   /\ reqs = Empty /\ codes = Empty /\ redeemed = {} /\ toks = Empty /\ rts = Empty /\ idts = Empty
@@ -278,6 +278,9 @@ RulesDeviceAuthorize(a, o) ==
     \* the device code is recorded for the client that authenticated, whatever else the request names
     <<"C05.device.boundTo", (o.class = "device") => o.req = a.caller>>,
     <<"C16.device.boundTo", (o.class = "device") => o.req = a.caller>>,
+    \* the user code shown to the user is the one the storage holds for THIS device code (approving it approves this flow and no other) -
+    \* also when the storage first answered "user code already exists" and the provider tried again
+    <<"C16.device.usercode", (o.class = "device") => o.ucBound>>,
     <<"C05.device.refused", (a.caller \notin Clients \/ "device" \notin Reg[a.caller].grants) => o.status >= 400>> }
 
 RulesPoll(a, o) ==
